@@ -40,6 +40,19 @@ def wd (c impl : List String) : Option Verdict := do
   let nt := el.any fun a => el.any fun b => Spec.C14.rank a != Spec.C14.rank b
   pure { model := model, oracle := Spec.C14.holds static as implRes, nontrivial := nt }
 
+/-- `wdstatic n ip* | auto k ip*`: the static servers as the parser keeps them: the wildcard
+    removed (and remembered), the rest strictly ascending -/
+def wdstatic (c impl : List String) : Option Verdict := do
+  let servers ← P.run (P.list P.ip) c
+  let (auto, static) ← P.run (do let a ← P.bool; let s ← P.list P.ip; pure (a, s)) impl
+  let want := sortBy addrKey (servers.filter fun a => !a.isUnspecified)
+  let wantAuto := servers.any (·.isUnspecified)
+  let strict := (static.zip static.tail).all fun (a, b) => decide (addrKey a < addrKey b)
+  pure { model := s!"{boolTok wantAuto} {want.length}" ++ String.join (want.map fun a => s!" {ipToks a}"),
+         oracle := strict && auto == wantAuto && static.all (fun a => servers.contains a && !a.isUnspecified) &&
+                   (servers.filter fun a => !a.isUnspecified).all static.contains,
+         nontrivial := decide (want.length ≥ 2) }
+
 def wderr (_c impl : List String) : Option Verdict :=
   pure { model := "err", oracle := impl == ["err"], nontrivial := false }
 
